@@ -24,26 +24,34 @@ PITCH = 16.0
 _T = 25.0
 
 
-def make_block(name, kind, height, dens, params=None):
-    """One full-hex block of type `kind`; dens = {nuclide: homogenised number density [1/b-cm]}."""
+def make_block(name, kind, height, dens, params=None, geom="cold"):
+    """One full-hex block of type `kind`; dens = {nuclide: homogenised number density [1/b-cm]}.
+    geom "cold": everything at input temperature, the pitch is defined by the inter-assembly coolant hexagon (a fluid);
+    geom "hot" : the outermost, pitch-defining hexagon is a SOLID duct of HT9 at Thot = 450 C (Tinput 25 C) that expands
+                 thermally; no inter-assembly coolant outside it (the hot pitch differs from the input dimension)."""
     armi_ready()
     from armi.reactor import blocks, components
 
     b = blocks.HexBlock(name, height=float(height))
     b.setType(kind)
     pin = components.Circle("fuel" if kind == "fuel" else "pin", "Custom", Tinput=_T, Thot=_T, od=0.8, id=0.0, mult=7)
-    duct = components.Hexagon("duct", "Custom", Tinput=_T, Thot=_T, op=15.6, ip=15.0, mult=1)
     cool = components.DerivedShape("coolant", "Sodium", Tinput=_T, Thot=_T)
-    ic = components.Hexagon("intercoolant", "Sodium", Tinput=_T, Thot=_T, op=PITCH, ip=15.6, mult=1)
-    for c in (pin, duct, cool, ic):
+    if geom == "hot":
+        duct = components.Hexagon("duct", "HT9", Tinput=_T, Thot=450.0, op=PITCH, ip=15.0, mult=1)
+        comps, fluids = (pin, duct, cool), [cool]
+    else:
+        duct = components.Hexagon("duct", "Custom", Tinput=_T, Thot=_T, op=15.6, ip=15.0, mult=1)
+        ic = components.Hexagon("intercoolant", "Sodium", Tinput=_T, Thot=_T, op=PITCH, ip=15.6, mult=1)
+        comps, fluids = (pin, duct, cool, ic), [cool, ic]
+    for c in comps:
         b.add(c)
     area = b.getArea()
-    frac = {"pin": pin.getArea() / area, "duct": duct.getArea() / area, "fluid": (cool.getArea() + ic.getArea()) / area}
-    by_class = {"pin": [pin], "duct": [duct], "fluid": [cool, ic]}
+    frac = {"pin": pin.getArea() / area, "duct": duct.getArea() / area, "fluid": sum(c.getArea() for c in fluids) / area}
+    by_class = {"pin": [pin], "duct": [duct], "fluid": fluids}
     for cls, comps in by_class.items():
         for c in comps:
             c.setNumberDensities({})
-    for c in (cool, ic):  # Sodium came with its own NA density: start from nothing
+    for c in fluids + [duct]:  # Sodium / HT9 came with their own densities: start from nothing
         for nuc in list(c.getNumberDensities()):
             c.setNumberDensity(nuc, 0.0)
     for nuc, val in (dens or {}).items():
@@ -63,7 +71,7 @@ def set_param(b, name, v):
     b.p[name] = np.array(v, dtype=float) if isinstance(v, (list, tuple)) else v
 
 
-def build_assembly(heights, kinds, dens, params=None, assem_type="fuel", assem_num=1):
+def build_assembly(heights, kinds, dens, params=None, assem_type="fuel", assem_num=1, geom="cold"):
     armi_ready()
     from armi.reactor import assemblies, grids
 
@@ -71,7 +79,7 @@ def build_assembly(heights, kinds, dens, params=None, assem_type="fuel", assem_n
     a.spatialGrid = grids.AxialGrid.fromNCells(len(heights))
     a.spatialGrid.armiObject = a
     for i, h in enumerate(heights):
-        a.add(make_block("b%d" % i, kinds[i], h, dens[i], None if params is None else params[i]))
+        a.add(make_block("b%d" % i, kinds[i], h, dens[i], None if params is None else params[i], geom))
     a.reestablishBlockOrder()
     a.calculateZCoords()
     # what blueprints set on every assembly / block they build (mesh subdivisions used by Core.findAllMeshPoints)
@@ -128,8 +136,10 @@ def block_state(b, nucs=NUCS, pnames=()):
     return out
 
 
-def atoms_per_area(a, nuc):
-    """(atoms of nuc in the assembly) * barn / hex area  ==  sum over blocks of N_hom * h   [1/b-cm * cm]"""
+def atoms_per_area(a, nuc, area=None):
+    """(atoms of nuc in the assembly) * barn / hex area  ==  sum over blocks of N_hom * h   [1/b-cm * cm].
+    area = the cross-section of the assembly the atoms are referred to (measured once, on the source assembly as built): a
+    re-meshed copy with a different cross-section then shows as lost / gained atoms.  Default: each block's own area."""
     from armi.utils import units
 
-    return sum(b.getNumberOfAtoms(nuc) * units.CM2_PER_BARN / b.getArea() for b in a)
+    return sum(b.getNumberOfAtoms(nuc) * units.CM2_PER_BARN / (area or b.getArea()) for b in a)
